@@ -89,6 +89,10 @@ theorem crop_kspace_plan_eq : Gen.C10.cropKspacePlan = some Crop.cropKspacePlan 
 theorem kspace_plans_no_early_return :
     Gen.C10.padKspacePlanReturns = 1 ∧ Gen.C10.cropKspacePlanReturns = 1 := by decide
 
+/-- `crop_to_largest`: `crop_start = -(max_shape - shape) // 2` -/
+theorem crop_to_largest_start_eq (mx n : Int) : crop_to_largest_start mx n = cropToLargestStart mx n := by
+  simp only [crop_to_largest_start, cropToLargestStart, Int.fdiv_eq_ediv_of_nonneg _ (by decide : (0:Int) ≤ 2)] <;> bridge_arith
+
 /-! ### key plumbing, state, argument forms of the k-space modules (helper functions followed by the translator) -/
 
 /-- `PadKspace` reads the k-space under `self.kspace_key` and stores the result under `self.kspace_key` -/
@@ -108,6 +112,7 @@ theorem module_key_access_ok : Crop.keyAccessOk Gen.C10.moduleKeyAccess = true :
 /-- the crop shape for the three argument forms of `CropKspace(crop=…)` -/
 theorem crop_shape_resolve_eq (form : Crop.CropForm) (ndim : Int) (crop keyVal : List Int) (slices : Int) :
     Gen.C10.crop_shape_resolve form ndim crop keyVal slices = Crop.cropShapeResolve form ndim crop keyVal slices := by
-  cases form <;> simp [Gen.C10.crop_shape_resolve, Crop.cropShapeResolve]
+  have h : ((crop.length : Int) = 2) ↔ crop.length = 2 := by omega
+  cases form <;> simp [Gen.C10.crop_shape_resolve, Crop.cropShapeResolve, h]
 
 end DirectVerif.Bridge.C10
